@@ -204,6 +204,24 @@ def find_dirs(ctx):
            'in the skip decision nor written to the depfile before the run '
            'is aborted: a directory created since the last regeneration is '
            'never watched')
+    # Make: the depfile adds the walked directories as prerequisites of a
+    # *target name*; that must be the target that carries the regenerate
+    # recipe. The regenerate rule goes through multitarget_rule, which moves
+    # the recipe to `<first output>.stamp` as soon as there is more than one
+    # output (any immediate file, e.g. a .pc file).
+    mrr = repo.func(REGEN + 'make_regenerate_rule')
+    via_multi = any(unparse(c.func) == 'make.multitarget_rule' and unparse(
+        Q.kwarg(c, 'targets') or ast.Constant(0)) ==
+        '_outputs(build_inputs, env)' for c in Q.calls(mrr.node))
+    mfd = repo.func(FIND + 'make_find_dirs')
+    wd_ = [c for c in Q.calls(mfd.node) if unparse(c.func) == 'write_depfile']
+    const_target = bool(wd_) and unparse(wd_[0].args[2]) == 'make.filepath'
+    ctx.ob(R, 'make_find_dirs|depfile-target-carries-the-recipe',
+           not (via_multi and const_target), mfd.node,
+           'the depfile names `Makefile` as the target that depends on the '
+           'searched directories, but with more than one regeneration '
+           'output the recipe sits on `Makefile.stamp` (multitarget_rule): '
+           'a directory change then never triggers a regeneration')
     wdf = repo.func(FIND + 'write_depfile')
     loops = [n for n in walk_no_nested(wdf.node) if isinstance(n, ast.For)
              and unparse(n.iter) == 'seen_dirs']
